@@ -65,20 +65,42 @@ CLAUSE_DOC = {
 }
 
 
-def _http_configs() -> list[str]:
-    return [f"http:{cap}:{comp}:{ext}" for comp in ("off", "zstd", "gzip", "gzips") for ext in ("off", "low")
-            for cap in ("none", "tiny", "large")]
+def _http_configs(space: dict) -> list[str]:
+    return [f"http:{cap}:{comp}:{ext}" for comp in sorted(space["comps"]) for ext in sorted(space["exts"])
+            for cap in ("none", "tiny", "large") if cap in space["caps"]]
 
 
 def _xs(rng, n: int) -> list[int]:
     return [rng.randrange(1000, 9999) for _ in range(n)]          # fixed width: response sizes do not depend on it
 
 
+SOCKET_KNOBS = ("val", "describe", "sockext", "extz")
+HTTP_KNOBS = ("val", "describe", "sticky", "cache", "level", "extz", "api", "cside")
+
+
+def _with_knobs(base: str, space: dict, rng) -> str:
+    """One value per deployment knob (Semantics!ConfigSpace), drawn for this run: a covering assignment."""
+    from drivers._c01_world import join_cfg
+
+    if base.startswith("http:"):
+        names = HTTP_KNOBS
+    elif base == "shm":
+        names = ("val", "describe", "shmseg")
+    elif base in ("subprocess", "pool"):
+        names = ("val", "describe")
+    else:
+        names = SOCKET_KNOBS
+    knobs = {k: rng.choice(sorted(space[k], key=str)) for k in names}
+    return join_cfg(base, knobs)
+
+
 def _family(cfg: str) -> dict:
-    if cfg.startswith("http:"):
-        _, cap, comp, ext = cfg.split(":")
-        return {"family": "http", "transport": "http", "cap": cap, "comp": comp, "ext": ext}
-    return {"family": "subprocess" if cfg == "subprocess" else "socket", "transport": cfg, "cap": "-", "comp": "-", "ext": "-"}
+    base, _, knobs = cfg.partition("|")
+    if base.startswith("http:"):
+        _, cap, comp, ext = base.split(":")
+        return {"family": "http", "transport": "http", "cap": cap, "comp": comp, "ext": ext, "knobs": knobs}
+    return {"family": "subprocess" if base in ("subprocess", "pool", "pool-reuse") else "socket", "transport": base,
+            "cap": "-", "comp": "-", "ext": "-", "knobs": knobs}
 
 
 def _stratified(cases: list[dict], rng, n: int) -> list[dict]:
@@ -100,12 +122,18 @@ def _stratified(cases: list[dict], rng, n: int) -> list[dict]:
     return out
 
 
-def _quick_cfgs(i: int) -> list[str]:
-    comps, exts = ("off", "zstd", "gzip", "gzips"), ("off", "low")
+def _quick_cfgs(i: int, space: dict, rng) -> list[str]:
+    comps, exts = sorted(space["comps"]), sorted(space["exts"])
     e = exts[i % 2]
-    return ["pipe", ("unix", "tcp")[i % 2], "shm",
-            f"http:none:{comps[i % 4]}:{e}", f"http:tiny:{comps[(i + 1) % 4]}:{e}",
-            f"http:large:{comps[(i + 2) % 4]}:{exts[(i // 2) % 2]}"]
+    bases = ["pipe", ("unix", "tcp")[i % 2], "shm",
+             f"http:none:{comps[i % 4]}:{e}", f"http:tiny:{comps[(i + 1) % 4]}:{e}",
+             f"http:large:{comps[(i + 2) % 4]}:{exts[(i // 2) % 2]}"]
+    if i % 20 == 3:
+        bases.append("subprocess")
+    if i % 20 == 13:
+        bases.append("pool")
+    # the reference transport keeps the default knobs in every second behaviour
+    return [b if (b == "pipe" and i % 2 == 0) else _with_knobs(b, space, rng) for b in bases]
 
 
 def _corruptions(obs: dict) -> list[tuple[str, dict]]:
@@ -174,38 +202,41 @@ def _run(ctx: Ctx, pools: list) -> None:
     # ---- replay of a recorded violation
     if getattr(ctx, "replay_record", None):
         det = ctx.replay_record["detail"]
-        jobs = [{"case": {"calls": det["calls"]}, "xs": det["xs"], "cfgs": sorted({"pipe", det["cfg"]}, key=lambda z: z != "pipe")}]
+        jobs = [{"case": {"calls": det["calls"]}, "xs": det["xs"], "cfgs": sorted({"pipe", det["cfg"].replace("pool-reuse", "pool")},
+                                                                                   key=lambda z: z != "pipe")}]
         total = 1
     else:
         slices = QUICK_SLICES if ctx.quick else THOROUGH_SLICES
-        cases = T.enumerate_cases(ctx, wd, "Semantics", constants=slices, invariants=INVS,
-                                  name="quick" if ctx.quick else "thorough", timeout=1500)
+        cases, space = T.enumerate_cases(ctx, wd, "Semantics", constants=slices, invariants=INVS,
+                                         name="quick" if ctx.quick else "thorough", timeout=1500)
+        ctx.extra["configuration_space"] = space
         ctx.extra["slices"] = slices
         ctx.extra["cases_enumerated"] = len(cases)
         total = len(cases)
         cases.sort(key=lambda c: jhash(c["case"]))
         if ctx.quick:
-            chosen = _stratified(cases, ctx.rng, 260)
-            jobs = [{"case": c["case"], "xs": _xs(ctx.rng, len(c["case"]["calls"])), "cfgs": _quick_cfgs(i)}
+            chosen = _stratified(cases, ctx.rng, 320)
+            jobs = [{"case": c["case"], "xs": _xs(ctx.rng, len(c["case"]["calls"])), "cfgs": _quick_cfgs(i, space, ctx.rng)}
                     for i, c in enumerate(chosen)]
         else:
             cases = _stratified(cases, ctx.rng, len(cases))      # whatever fits the time budget is spread over all strata
-            allcfg = list(SOCKETS) + _http_configs()
+            allcfg = list(SOCKETS) + _http_configs(space)
             jobs = []
             nsub = 0
             for i, c in enumerate(cases):
-                cfgs = list(allcfg)
+                bases = list(allcfg)
                 multi = len(c["case"]["calls"]) > 1
-                if (multi and nsub < 200 and i % 3 == 0) or (not multi and i % 40 == 0):
-                    cfgs.append("subprocess")
+                if (multi and nsub < 300 and i % 3 == 0) or (not multi and i % 30 == 0):
+                    bases.append("subprocess" if nsub % 2 == 0 else "pool")
                     nsub += 1
+                cfgs = [b if (b == "pipe" and i % 2 == 0) else _with_knobs(b, space, ctx.rng) for b in bases]
                 jobs.append({"case": c["case"], "xs": _xs(ctx.rng, len(c["case"]["calls"])), "cfgs": cfgs})
 
     # ---- spec -> code: execute every chosen behaviour over its configurations (worker processes)
     for j in jobs:
         j["calls"] = j["case"]["calls"]
         j["subdir"] = str(wd)
-    budget = 25.0 if ctx.quick else 360.0
+    budget = 80.0 if ctx.quick else 420.0
     t_exec = time.time()
     deadline = t_exec + budget
     results: list = [None] * len(jobs)
@@ -244,22 +275,27 @@ def _run(ctx: Ctx, pools: list) -> None:
     # ---- code -> spec: group identical histories per behaviour, TLC judges each distinct one
     records, meta = [], []          # records[r] = {case, obs: [...]}, meta[r][k] = {job, cfgs, synthetic}
     cfg_seen: dict[str, int] = {}
+    knob_seen: dict[str, int] = {}
     enc_seen: dict[str, set] = {}
     ext_used = 0
     synth = 0
     for i in executed:
         job, res = jobs[i], results[i]
         key = jhash(job["case"])
-        ref_calls = res.get("pipe", {}).get("calls") if res.get("pipe", {}).get("status") == "ok" else None
+        pipe_cfg = next((c for c in res if c.partition("|")[0] == "pipe"), None)
+        ref_calls = res[pipe_cfg]["calls"] if pipe_cfg and res[pipe_cfg]["status"] == "ok" else None
         groups: dict[str, list[str]] = {}
         for cfg, r in res.items():
-            cfg_seen[cfg] = cfg_seen.get(cfg, 0) + 1
+            cbase, _, ctail = cfg.partition("|")
+            cfg_seen[cbase] = cfg_seen.get(cbase, 0) + 1
+            for kv in filter(None, ctail.split(",")):
+                knob_seen[kv] = knob_seen.get(kv, 0) + 1
             for e in r.get("encodings", []):
-                enc_seen.setdefault(cfg.split(":")[2] if cfg.startswith("http") else cfg, set()).add(e)
+                enc_seen.setdefault(cbase.split(":")[2] if cbase.startswith("http") else cbase, set()).add(e)
             ext_used += r.get("externalized", 0)
             ctx.case([key, cfg], sample={"script": job["case"]["calls"], "xs": job["xs"], "configuration": cfg,
                                          "history": [{k: c[k] for k in ("res", "hdr", "data", "logs", "err", "stopped")}
-                                                     for c in r["calls"]]} if (i % 97 == 0 and cfg in ("pipe", "http:tiny:gzip:low")) else None)
+                                                     for c in r["calls"]]} if (i % 97 == 0 and (cbase == "pipe" or cbase.startswith("http:tiny"))) else None)
             if r["status"] != "ok":
                 # harness-level fact: the client did not get through the script at all (hang / escaped exception)
                 ctx.violation("Completes", {**_family(cfg), "clause": "Completes", "status": r["status"], "kind": "-", "named": "", "generic": "", "observed_error": ""},
@@ -270,11 +306,11 @@ def _run(ctx: Ctx, pools: list) -> None:
         obs, ms = [], []
         for hist, cfgs in groups.items():
             calls = json.loads(hist)
-            is_ref = "pipe" in cfgs or ref_calls is None
+            is_ref = pipe_cfg in cfgs or ref_calls is None
             obs.append({"calls": calls, "ref": [] if is_ref else [c["raw"] for c in ref_calls]})
             ms.append({"job": i, "cfgs": cfgs, "synthetic": None})
             # judge self-test: damaged copies of a few histories must be rejected with the right clause
-            if "pipe" in cfgs and synth < 12:
+            if pipe_cfg in cfgs and synth < 12:
                 for clause, bad in _corruptions(obs[-1])[:2]:
                     obs.append(bad)
                     ms.append({"job": i, "cfgs": [], "synthetic": clause})
@@ -286,6 +322,7 @@ def _run(ctx: Ctx, pools: list) -> None:
     observations = [(r, k) for r in range(len(records)) for k in range(len(records[r]["obs"]))]
     ctx.extra["distinct_histories_judged"] = len(observations) - synth
     ctx.extra["configurations_run"] = cfg_seen
+    ctx.extra["non_default_knob_values_run"] = knob_seen
     ctx.extra["response_encodings_seen"] = {k: sorted(v) for k, v in enc_seen.items()}
     ctx.extra["batches_externalized"] = ext_used
     counts: dict[str, int] = {}
